@@ -14,6 +14,10 @@ def guards : List (String × List (String × String)) := [("get_segment_masks", 
 def moleculeBondTypeRefs : List String := []
 /-- every mention of bond types in bonds.pyx find_connected / _find_connected. -/
 def connectedBondTypeRefs : List String := []
+/-- sub-extractions that did not recognise the shape of the source (their tables hold sentinels). -/
+def extractProblems : List String := []
+/-- module-level assignments next to the modelled functions, other than dunders and message-only texts. -/
+def moduleState : List String := []
 /-- signatures (parameter order and default values) of the anchored public functions. -/
 def signatures : List String := ["get_residue_starts(array, add_exclusive_stop=False)", "apply_residue_wise(array, data, function, axis=None)", "spread_residue_wise(array, input_data)", "get_residue_masks(array, indices)", "get_residue_starts_for(array, indices)", "get_residue_positions(array, indices)", "get_residues(array)", "get_residue_count(array)", "residue_iter(array)", "get_chain_starts(array, add_exclusive_stop=False)", "apply_chain_wise(array, data, function, axis=None)", "spread_chain_wise(array, input_data)", "get_chain_masks(array, indices)", "get_chain_starts_for(array, indices)", "get_chain_positions(array, indices)", "get_chains(array)", "get_chain_count(array)", "chain_iter(array)", "apply_segment_wise(starts, data, function, axis=None)", "spread_segment_wise(starts, input_data)", "get_segment_masks(starts, indices)", "get_segment_starts_for(starts, indices)", "get_segment_positions(starts, indices)", "segment_iter(array, starts)", "get_molecule_indices(array)", "get_molecule_masks(array)", "molecule_iter(array)", "find_connected(bond_list, uint32 root, bint as_mask=False)"]
 /-- (function, first start, index into np.where(..), offset added, expression of the exclusive stop). -/
